@@ -187,6 +187,10 @@ func unpackZip(
 	if prefilterBucket.Length() == 0 {
 		return api.WareID{}, api.WareID{}, Errorf(rio.ErrWareCorrupt, "corrupt zip: archive contains no entries")
 	}
+	// If the filters ejected every entry -- the root itself included -- there is no fileset left to deliver or hash.
+	if filteredBucket.Length() == 0 {
+		return api.WareID{}, api.WareID{}, Errorf(rio.ErrFilterRejection, "filters eject every entry of this ware, including its root")
+	}
 
 	// Cleanup dir times with a post-order traversal over the bucket.
 	//  Files and dirs placed inside dirs cause the parent's mtime to update, so we have to re-pave them.
